@@ -180,6 +180,9 @@ QXmppDiscoveryIq QXmppDiscoveryManager::capabilities()
         }
     }
 
+    // a feature may be contributed more than once (e.g. jabber:x:conference by the client itself and by
+    // QXmppMucManager); XEP-0115 5.4 tells a verifying peer to reject a result that repeats a feature
+    features.removeDuplicates();
     iq.setFeatures(features);
 
     // identities
